@@ -76,6 +76,7 @@ def gen_c16(rng: random.Random, sid: str, thorough: bool) -> dict:
     sc['v6src'] = sc['layout'] == 'dual' and rng.random() < 0.7
     # the copy follows in the same instant or a few milliseconds later (nothing else is delivered in between)
     sc['dup_gap'] = rng.choice([0, 0, 1, 3, 40])
+    sc['debug_log'] = rng.random() < 0.3
     return sc
 
 
@@ -170,7 +171,8 @@ def run_pairs(ctx: Ctx, jobs: List[Tuple[dict, Any]]) -> None:
             # (the copy of a probe is answered like the probe: at once by multicast whatever was multicast before -- D9 again)
             if rids and recent == set(rids) and d['t'] not in p.get('quprobes', []):
                 disc = 'extra-multicast-of-recently-multicast-records'
-        elif clause == 'C16_SameListenerCalls' and d is not None and d['t'] in p.get('echo', []):
+        elif clause in ('C16_SameListenerCalls', 'C16_NothingLost') and d is not None and d['k'] == 'lc' and d['t'] in p.get('echo', []):
+            clause = 'C16_SameListenerCalls'     # (at a tie with another event of the same instant the lockstep names the other side)
             # same cause as D9: a datagram with a QU question -- here a response that echoes one -- is exempt from the guard
             disc = 'response-echoing-a-qu-question-processed-twice'
         elif clause in ('C16_NoExtraMulticast', 'C16_NothingLost') and tdiv is not None and any(tdiv - 1500 <= q['t'] <= tdiv for q in p['qudups']):
